@@ -369,6 +369,146 @@ func onePair(c *hx.Ctx, id, sk, dk string, round int, r *hx.Rng) {
 		}
 		cmpTruth(cid, what)
 	}
+	recopy(c, id+"/recopy", src, srcSnap, dst, dk, desc)
+}
+
+// recopy: the source is copied once more, into the destination as the mutations left it (a file changed, grown or
+// removed, an extra file or directory). A destination is writable whether or not it is empty: afterwards every
+// source path must be there with the source's contents again, and what the destination held in addition must be
+// as it was.
+func recopy(c *hx.Ctx, id string, src *srcHandle, srcSnap map[string]Item, dst filesystem.FileSystem, dk, desc string) {
+	before, err := snapshot(dst)
+	if err != nil {
+		c.Stat("pair/recopy-dest-unreadable/" + dk)
+		return
+	}
+	var cerr error
+	if perr := safely(func() { cerr = dsync.CopyFileSystem(src.fsys, dst) }); perr != nil {
+		c.Fail(id, "-", "second CopyFileSystem into the same destination: "+perr.Error(), desc)
+		return
+	}
+	if cerr != nil {
+		c.Fail(id, "-", "second CopyFileSystem into the same destination failed: "+cerr.Error(), desc)
+		return
+	}
+	after, err := snapshot(dst)
+	if err != nil {
+		c.Fail(id, "-", "cannot read the destination back after the second copy: "+err.Error(), desc)
+		return
+	}
+	want := expectedFromSnapshot(srcSnap, true)
+	got := expectedFromSnapshot(after, false)
+	for p, it := range expectedFromSnapshot(before, false) {
+		if _, inSrc := want[p]; !inSrc {
+			want[p] = it // an extra of the destination stays
+		}
+	}
+	diffs := diffFlat(want, got, false)
+	c.Stat("pair/recopy/" + dk)
+	longer := 0
+	for p, it := range want {
+		if b, ok := before[p]; ok && it.Kind == KFile && b.Kind == KFile && b.Size > it.Size {
+			longer++
+		}
+	}
+	if longer > 0 {
+		c.Stat("pair/recopy-over-longer-file/" + dk)
+	}
+	switch {
+	case len(diffs) == 0:
+		c.OK(id)
+	case dk == "ext4" && truncIgnored() && keptTailExplains(dst, srcSnap, before, after, want, got):
+		c.Fail(id, tagTruncIgnored, "the second copy returned nil but: "+strings.Join(first(diffs, 4), "; ")+
+			" - each such file was longer in the destination than in the source and keeps its old tail behind the new bytes", desc)
+	default:
+		c.Fail(id, "-", "after the second copy the destination differs from source + its own extras: "+strings.Join(first(diffs, 6), "; "), desc)
+	}
+}
+
+const tagTruncIgnored = "ext4-openfile-ignores-trunc"
+
+var truncProbe struct {
+	done, ignored bool
+	msg           string
+}
+
+// truncIgnored replays the witness of finding ext4-openfile-ignores-trunc on a fresh ext4 volume (once per run):
+// 50000 bytes, then OpenFile(O_CREATE|O_TRUNC|O_RDWR) and two bytes.
+func truncIgnored() bool {
+	if truncProbe.done {
+		return truncProbe.ignored
+	}
+	truncProbe.done = true
+	perr := safely(func() {
+		dst, _, err := newWritable("ext4")
+		if err != nil {
+			truncProbe.msg = "cannot create an ext4 volume: " + err.Error()
+			return
+		}
+		f, err := dst.OpenFile("a.bin", os.O_CREATE|os.O_RDWR)
+		if err != nil {
+			truncProbe.msg = "create: " + err.Error()
+			return
+		}
+		old := make([]byte, 50000)
+		for i := range old {
+			old[i] = byte(i*13 + 5)
+		}
+		if _, err = f.Write(old); err != nil {
+			truncProbe.msg = "write: " + err.Error()
+			return
+		}
+		f.Close()
+		if f, err = dst.OpenFile("a.bin", os.O_CREATE|os.O_TRUNC|os.O_RDWR); err != nil {
+			truncProbe.msg = "open with O_TRUNC: " + err.Error()
+			return
+		}
+		if _, err = f.Write([]byte("hi")); err != nil {
+			truncProbe.msg = "write after O_TRUNC: " + err.Error()
+			return
+		}
+		f.Close()
+		got, err := dst.ReadFile("a.bin")
+		if err != nil {
+			truncProbe.msg = "read back: " + err.Error()
+			return
+		}
+		truncProbe.ignored = len(got) == len(old) && string(got[:2]) == "hi" && string(got[2:]) == string(old[2:])
+		truncProbe.msg = fmt.Sprintf("ext4: a.bin of 50000 bytes re-opened with O_CREATE|O_TRUNC|O_RDWR and 'hi' written: %d bytes afterwards", len(got))
+	})
+	if perr != nil {
+		truncProbe.msg = perr.Error()
+	}
+	return truncProbe.ignored
+}
+
+// keptTailExplains: trigger and symptom of finding ext4-openfile-ignores-trunc for a second copy - every difference is
+// a file that the destination held before with MORE bytes than the source has, and that now has its old length,
+// the source's bytes in front and behind them the bytes it had there before (the mutations only ever append).
+func keptTailExplains(dst filesystem.FileSystem, srcSnap, before, after, want, got map[string]Item) bool {
+	n := 0
+	for p, w := range want {
+		g, ok := got[p]
+		if ok && g.Kind == w.Kind && (w.Kind != KFile || (g.Size == w.Size && g.Sha == w.Sha)) {
+			continue // no difference for diffFlat
+		}
+		s, inSrc := srcSnap[p]
+		b, had := before[p]
+		if !ok || !inSrc || !had || w.Kind != KFile || g.Kind != KFile || b.Kind != KFile || b.Size <= s.Size || g.Size != b.Size {
+			return false
+		}
+		data, err := dst.ReadFile(p)
+		if err != nil || int64(len(data)) != b.Size || sha(data[:s.Size]) != s.Sha {
+			return false
+		}
+		n++
+	}
+	for p := range got {
+		if _, ok := want[p]; !ok {
+			return false
+		}
+	}
+	return n > 0
 }
 
 // ---------------------------------------------------------------------------------------------
@@ -403,4 +543,30 @@ func partKnown(c *hx.Ctx) {
 	if perr != nil {
 		c.Note("known/fat-read-past-eof: %v", perr)
 	}
+	// ext4-openfile-ignores-trunc (owner: the ext4 writer): the witness on the raw API, then the same through
+	// CopyFileSystem - a destination that holds a.bin with 50000 bytes receives a source whose a.bin has 2
+	ignored := truncIgnored()
+	msg := truncProbe.msg
+	perr = safely(func() {
+		dst, _, err := newWritable("ext4")
+		if err != nil {
+			return
+		}
+		long := &Node{Name: ".", Kind: KDir, Children: []*Node{{Name: "a.bin", Kind: KFile, Data: patData(50000, 3)}}}
+		short := &Node{Name: ".", Kind: KDir, Children: []*Node{{Name: "a.bin", Kind: KFile, Data: []byte("hi")}}}
+		if err := dsync.CopyFileSystem(long.toMapFS(), dst); err != nil {
+			msg += "; first copy: " + err.Error()
+			return
+		}
+		cerr := dsync.CopyFileSystem(short.toMapFS(), dst)
+		got, rerr := dst.ReadFile("a.bin")
+		msg += fmt.Sprintf("; CopyFileSystem of a 2-byte a.bin over a 50000-byte a.bin: err=%v, %d bytes afterwards (read err=%v)", cerr, len(got), rerr)
+		if ignored != (cerr == nil && len(got) == 50000) {
+			msg += " - the raw witness and the copy disagree"
+		}
+	})
+	if perr != nil {
+		msg += "; " + perr.Error()
+	}
+	c.Known(tagTruncIgnored, ignored, msg)
 }
